@@ -627,3 +627,25 @@ func TestC01Seeds(t *testing.T) {
 		}
 	})
 }
+
+// every registered filter x typical inputs x hostile parameters taken from the context (extreme
+// integers of every width, infinities, NaN, nil, containers): a grid that random pairing of a
+// filter with a name reaches only by luck
+func TestC01Grid(t *testing.T) {
+	inputs := []string{"long", "str", "sl", "i", "f", "mm", "nili", "tm", "bad", "i64min"}
+	params := []string{"i64max", "i64min", "u64max", "neg", "inf", "ninf", "nan", "tiny", "nili", "sl", "str", `"2000000000"`, `"-2000000000"`, "2000000000", "i8", "u8"}
+	enumerate(t, "C01.total", "grid", func(yield func(any) bool) {
+		for _, f := range pongo2.VerifRegisteredFilters() {
+			for _, in := range inputs {
+				for pi, p := range params {
+					files := progFixedFiles()
+					files["/base.tpl"] = "BASE[{% block content %}base{% endblock %}]"
+					files["/root.tpl"] = "{{ " + in + "|" + f + ":" + p + " }}{% filter " + f + ":" + p + " %}alpha beta gamma delta{% endfilter %}"
+					if !yield(&c01Case{Files: files, Entry: "/root.tpl", Variant: pi % 12}) {
+						return
+					}
+				}
+			}
+		}
+	})
+}
